@@ -1,26 +1,43 @@
 #!/bin/bash
 # Evaluate seeded changes against the checks: for each job  <seeded-id>[:CHECK[:TIER]]
 #   git -C /repo apply seeded/<id>/patch.diff ; scripts/check.sh CHECK TIER ; git -C /repo checkout -- .
+# The patch is applied to /repo's working tree in place (the checks rebuild from it), so an interrupted run
+# would leave a seeded defect behind (this happened once: R7-C07-2, see known_findings.json, C07 fixed entry).
+# Therefore: /repo is restored from an EXIT/INT/TERM/HUP trap, and the id of the patch in flight is kept in
+# $HERE/.seeded_in_flight, which survives a SIGKILL; a later run of this script or of check.sh that finds the
+# marker while /repo is dirty says so instead of silently checking a patched tree.
 # CHECK defaults to the change's own property, TIER to quick. Results are appended to $OUT/results.txt
 # (default OUT=/tmp/muteval). /repo must be clean; do not build in harness/ while this runs.
 HERE="$(cd "$(dirname "$0")/.." && pwd)"
 OUT=${OUT:-/tmp/muteval}; mkdir -p "$OUT"
 cd "$HERE"
+MARK="$HERE/.seeded_in_flight"
+if [ -e "$MARK" ]; then
+  echo "stale marker $MARK: seeded change '$(cat "$MARK")' was in flight when an earlier evaluation died;" >&2
+  echo "restoring /repo's working tree (git checkout -- .) and removing the marker" >&2
+  git -C /repo checkout -- . ; git -C /repo reset -q ; rm -f "$MARK"
+fi
 if [ -n "$(git -C /repo status --porcelain)" ]; then echo "/repo is not clean" >&2; exit 2; fi
+# only from here on is every modification of /repo's working tree this script's own
+restore() { git -C /repo checkout -- . 2>/dev/null; git -C /repo reset -q 2>/dev/null; rm -f "$MARK"; }
+trap restore EXIT
+trap 'restore; exit 130' INT TERM HUP
 for job in "$@"; do
   IFS=: read ID CHK TIER <<< "$job"
   PROP=$(echo "$ID" | sed -E 's/^R[0-9]+-//; s/-[0-9]+$//')
   CHK=${CHK:-$PROP}; TIER=${TIER:-quick}
   P="$HERE/seeded/$ID/patch.diff"
   [ -f "$P" ] || { echo "$ID no patch" >> "$OUT/results.txt"; continue; }
+  echo "$ID" > "$MARK"
   if ! git -C /repo apply "$P" 2>"$OUT/apply_$ID.err"; then
-    if ! git -C /repo apply -3 "$P" 2>>"$OUT/apply_$ID.err"; then echo "$ID apply=FAIL" >> "$OUT/results.txt"; git -C /repo checkout -- .; git -C /repo reset -q; continue; fi
+    if ! git -C /repo apply -3 "$P" 2>>"$OUT/apply_$ID.err"; then echo "$ID apply=FAIL" >> "$OUT/results.txt"; git -C /repo checkout -- .; git -C /repo reset -q; rm -f "$MARK"; continue; fi
     git -C /repo reset -q
   fi
   s=$(date +%s)
-  scripts/check.sh "$CHK" "$TIER" > "$OUT/log_${ID}_$CHK.txt" 2>&1; rc=$?
+  VERIF_SEEDED_EVAL=1 scripts/check.sh "$CHK" "$TIER" > "$OUT/log_${ID}_$CHK.txt" 2>&1; rc=$?
   e=$(date +%s)
   git -C /repo checkout -- .
+  rm -f "$MARK"
   nv=$(grep -c '^VIOLATION' "$OUT/log_${ID}_$CHK.txt")
   echo "$ID check=$CHK tier=$TIER rc=$rc violations=$nv time=$((e-s))s :: $(grep -A1 '^VIOLATION' "$OUT/log_${ID}_$CHK.txt" | grep detail | head -1 | cut -c1-220)" >> "$OUT/results.txt"
 done
